@@ -80,6 +80,7 @@ type Endpoint struct {
 	Written        int // total bytes handed to Write and accepted
 	Delivered      int // total bytes returned from Read
 	emptyRun       int
+	MaxReadBuf     int // largest buffer ever offered to Read (lower bound of the reader's buffer capacity)
 	OpLog          []string
 }
 
@@ -123,6 +124,9 @@ func (e *Endpoint) Read(p []byte) (int, error) {
 	e.Ops++
 	op := e.Ops
 	n.Stats.Reads++
+	if len(p) > e.MaxReadBuf {
+		e.MaxReadBuf = len(p)
+	}
 	e.inR++
 	if e.inR > 1 {
 		n.Stats.ConcurrentReads++
@@ -257,6 +261,25 @@ func (e *Endpoint) Write(p []byte) (int, error) {
 	if t != nil {
 		t.Park("net.write " + e.Name)
 	}
+	if n.Mutate != nil {
+		// a man-in-the-middle rewrites the whole buffer; the writer is told
+		// that exactly its own bytes were taken
+		orig := len(p)
+		q := n.Mutate(e, p)
+		k, err := e.writeBytes(t, op, q)
+		if err == nil || k >= len(q) {
+			return orig, err
+		}
+		if k > orig {
+			k = orig
+		}
+		return k, err
+	}
+	return e.writeBytes(t, op, p)
+}
+
+func (e *Endpoint) writeBytes(t *verifsim.Task, op int, p []byte) (int, error) {
+	n := e.N
 	flt := e.fault()
 	limit := -1
 	if flt != nil && flt.Op == op {
@@ -353,9 +376,6 @@ func (e *Endpoint) Write(p []byte) (int, error) {
 func (e *Endpoint) accept(p []byte) {
 	n := e.N
 	q := p
-	if n.Mutate != nil {
-		q = n.Mutate(e, p)
-	}
 	e.Peer.rq = append(e.Peer.rq, q...)
 	e.Written += len(p)
 	n.Stats.BytesWritten += len(p)
